@@ -155,6 +155,13 @@ def cases(chk):
         {"auto": False, "contacts": 1, "events": [["send", 0], ["recv", 0], ["reinstall", 0], ["send", 0], ["recv", 0], ["revert", 0], ["recv", 0], ["send", 0], ["reinstall", 0], ["revert", 0], ["send", 0]]},
         {"auto": True, "contacts": 1, "events": [["recv", 0], ["reinstall", 0], ["recv", 0], ["revert", 0], ["recv", 0], ["send", 0], ["revert", 0], ["auto", 0], ["revert", 0], ["send", 0], ["recv", 0]]},
     ]
+    # ... with a session that had carried traffic BOTH ways before the contact changed (so that the returning install sends ordinary messages, not
+    # first messages), and the observer writing to the contact right after the refused message: what it writes is for the remembered identity
+    corpus += [
+        {"auto": True, "contacts": 1, "events": [["send", 0], ["recv", 0], ["reinstall", 0], ["send", 0], ["auto", 0], ["revert", 0], ["recv", 0], ["send", 0], ["recv", 0], ["send", 0]]},
+        {"auto": True, "contacts": 1, "events": [["recv", 0], ["send", 0], ["recv", 0], ["reinstall", 0], ["recv", 0], ["send", 0], ["auto", 0], ["revert", 0], ["recv", 0], ["recv", 0], ["send", 0],
+                                                  ["restart"], ["send", 0]]},
+    ]
     # whose pin an incoming stanza is checked against: every chat shape x participant present / absent x envelope kind
     for chat in ("4915200002@s.whatsapp.net", "4915200002-1400000000@g.us", "status@broadcast", "1500000099@broadcast", "4915200003@s.whatsapp.net"):
         for part in (None, "4915200002@s.whatsapp.net", "4915200003@s.whatsapp.net"):
